@@ -30,7 +30,8 @@ PROPS = {
                 "strategy warn|abort|partial-response-disabled, lazy (buffer 1-4) or eager retrieval, response batch size, replica-label "
                 "stripping, clock jumps on/off) executed fault-free once and then once per failure point: every queried store x {refuse, "
                 "error after k frames for every k in 0..stream length, stall after k frames for every k}, and every pair of queried stores "
-                "x the product of their failure points (reduced to first/middle/end when the product exceeds the pair budget). "
+                "x the product of their failure points (reduced to first/middle/end when the product exceeds the pair budget); finally the single refuse/error points once more through "
+                "query.NewQueryableCreator(...).Select() with partial response off (the query must fail) and on (it must succeed and carry a warning). "
                 "distinct = distinct hash of the full event log of the evaluation; non-trivial = at least one store was queried in the "
                 "reference execution.",
         "components": RC_COMPONENTS,
@@ -103,7 +104,9 @@ PROPS = {
         "rule": "one evaluation = one generated cluster (1-5 stores advertising zero, one or several external label sets and their real "
                 "time ranges) and 6 requests (Series, LabelNames, LabelValues) with drawn selectors (=, !=, =~, !~, empty-value and "
                 "match-everything matchers over series and external labels) and time ranges around the stores' boundaries; after each "
-                "request every store the transport did not see is checked to hold no matching series in range. distinct = distinct "
+                "request every store the transport did not see is checked to hold no matching series in range; a third of the requests carries the querier's store selection "
+                "(1-2 sets of matchers on __address__, handed through the request context): a store whose address fits no set must not be contacted, and one that "
+                "fits must not be skipped for that reason. distinct = distinct "
                 "event-log hash; non-trivial = at least one store was skipped.",
         "components": RC_COMPONENTS,
         "assumptions": ["TSDB selector, store debug matchers and the metric-name store filter are not configured: every skip is due to the "
